@@ -75,7 +75,7 @@ Example lazy_global_rejected :
 Proof. reflexivity. Qed.
 
 Example cache_on_definition_rejected :
-  field_write_ok shared_state_allow
+  field_write_ok shared_state_allow mutex_methods
     {| fw_pkg := "flows/definition"; fw_func := "flow.Nodes"; fw_type := "flows/definition.flow"; fw_field := "nodeMap";
        fw_root := RtRecv; fw_ctor := CkNone; fw_under_lock := false; fw_nil_guard := true; fw_in_once := false |} = false.
 Proof. reflexivity. Qed.
@@ -96,14 +96,29 @@ Example called_setter_on_shared_var_rejected :
 Proof. reflexivity. Qed.
 
 (* the lazy-initialisation pattern inside a function that is a constructor by name only, through its argument *)
+(* review round 2, finding 1: a write to a CACHED flow made inside the locked flowAssets.Get (`flow.hits++` on a cache hit:
+   root is the looked-up object, not the receiver) is not covered by the cache's mutex; the same write to the receiver's
+   own field is *)
+Example write_to_cached_flow_under_cache_lock_rejected :
+  field_write_ok shared_state_allow mutex_methods
+    {| fw_pkg := "flows/definition"; fw_func := "flowAssets.Get"; fw_type := "flows/definition.flow"; fw_field := "hits";
+       fw_root := RtOther; fw_ctor := CkNone; fw_under_lock := true; fw_nil_guard := false; fw_in_once := false |} = false
+  /\ field_write_ok shared_state_allow mutex_methods
+    {| fw_pkg := "flows/definition"; fw_func := "flowAssets.Get"; fw_type := "flows/definition.flow"; fw_field := "hits";
+       fw_root := RtRecv; fw_ctor := CkNone; fw_under_lock := true; fw_nil_guard := false; fw_in_once := false |} = false
+  /\ field_write_ok shared_state_allow mutex_methods
+    {| fw_pkg := "flows/definition"; fw_func := "flowAssets.Get"; fw_type := "flows/definition.flowAssets"; fw_field := "cache";
+       fw_root := RtRecv; fw_ctor := CkNone; fw_under_lock := true; fw_nil_guard := false; fw_in_once := false |} = true.
+Proof. repeat split; reflexivity. Qed.
+
 Example cache_on_definition_in_ctor_rejected :
-  field_write_ok shared_state_allow
+  field_write_ok shared_state_allow mutex_methods
     {| fw_pkg := "flows"; fw_func := "parseQuery"; fw_type := "flows.Group"; fw_field := "parsedQuery";
        fw_root := RtParam; fw_ctor := CkNamed; fw_under_lock := false; fw_nil_guard := true; fw_in_once := false |} = false
-  /\ field_write_ok shared_state_allow
+  /\ field_write_ok shared_state_allow mutex_methods
     {| fw_pkg := "flows"; fw_func := "parseQuery"; fw_type := "flows.Group"; fw_field := "parsedQuery";
        fw_root := RtParam; fw_ctor := CkNamed; fw_under_lock := false; fw_nil_guard := false; fw_in_once := false |} = false
-  /\ field_write_ok shared_state_allow
+  /\ field_write_ok shared_state_allow mutex_methods
     {| fw_pkg := "flows"; fw_func := "Group.UnmarshalJSON"; fw_type := "flows.Group"; fw_field := "parsedQuery";
        fw_root := RtRecv; fw_ctor := CkUnmarshal; fw_under_lock := false; fw_nil_guard := true; fw_in_once := false |} = false.
 Proof. repeat split; reflexivity. Qed.
